@@ -218,7 +218,20 @@ HELPERS_EDITS = [
        "        elif axis == 'sample':\n            axis = 1\n        elif axis == 'observation':\n            axis = 0")]),
     ('h-index-wrong-ids', 'semantic', '_index_ids builds the sample index from the observation ids',
      [('            self._sample_index = index_list(self._sample_ids)', '            self._sample_index = index_list(self._observation_ids)')]),
+    ('h-cast-or', 'semantic', 'cast_metadata: `or` for `and` in the all-empty test (any mapping counts as empty)',
+     [('                if all(m is None or (isinstance(m, dict) and not m)\n                       for m in md):',
+       '                if all(m is None or (isinstance(m, dict) or not m)\n                       for m in md):')]),
+    ('h-cast-none-raises', 'semantic', 'cast_metadata: the `elif item is None` branch dropped (None entries are refused)',
+     [('                    elif item is None:\n                        pass\n', '')]),
+    ('h-ctor-no-len', 'semantic', 'Table.__init__: the sample block no longer compares the sizes',
+     [('                   for m in sample_metadata) and \\\n                    len(sample_metadata) == len(sample_ids):',
+       '                   for m in sample_metadata):')]),
+    ('h-cast-swap', 'preserving', 'cast_metadata: the all-empty test written with the operands of `or` swapped',
+     [('                if all(m is None or (isinstance(m, dict) and not m)\n                       for m in md):',
+       '                if all((isinstance(m, dict) and not m) or m is None\n                       for m in md):')]),
     ('h-rename', 'preserving', '_union_id_order: local all_ids renamed', [('all_ids', 'every_id')]),
+    ('h-cast-copy', 'reject', 'cast_metadata: dict(item) instead of d.update(item)',
+     [('                        d.update(item)', '                        d = dict(item)')]),
     ('h-index-optional', 'reject', '_index_ids stores the other (possibly None) argument',
      [('            self._sample_index = sample_index', '            self._sample_index = observation_index')]),
     ('h-dict-call', 'reject', '_union_id_order: dict() instead of {}',
@@ -243,12 +256,12 @@ TARGETS = [
     ('filter', '_filter.pyx', 'FilterGen.v', KERNEL_COQ_FILES, KERNEL_EDITS, 'C08'),
     ('transform', '_transform.pyx', 'TransformGen.v', ['Gen/TransformGen.v', 'Proofs/GenBridgeProofs.v'], TRANSFORM_EDITS, 'C13'),
     ('subsample', '_subsample.pyx', 'SubsampleGen.v', ['Gen/SubsampleGen.v', 'Proofs/GenBridgeSubsampleProofs.v'], SUBSAMPLE_EDITS, 'C12'),
-    ('helpers', 'table.py', 'HelpersGen.v', ['Gen/HelpersGen.v', 'Proofs/GenBridgeMergeProofs.v', 'Proofs/GenBridgeAxisProofs.v', 'Proofs/GenBridgeIndexedProofs.v'], HELPERS_EDITS, 'C09'),
+    ('helpers', 'table.py', 'HelpersGen.v', ['Gen/HelpersGen.v', 'Proofs/GenBridgeMergeProofs.v', 'Proofs/GenBridgeAxisProofs.v', 'Proofs/GenBridgeIndexedProofs.v', 'Proofs/GenBridgeCastProofs.v'], HELPERS_EDITS, 'C09'),
     ('util', 'util.py', 'UtilGen.v', ['Gen/UtilGen.v', 'Proofs/GenBridgeMergeProofs.v', 'Proofs/GenBridgeIndexProofs.v'], UTIL_EDITS, 'C09'),
 ]
 GLOBAL_RENAMES = ('rename-local', 'k-rename', 't-rename', 'h-rename')
 # the property whose check an edit is run through with --check, where it is not the target's default
-EDIT_PROP = {'h-index-wrong-ids': 'C05', 'h-axis-num': 'C19', 'h-sum-axis': 'C19', 'u-index-plus1': 'C05', 'u-rename': 'C05'}
+EDIT_PROP = {'h-cast-or': 'C08', 'h-cast-none-raises': 'C08', 'h-ctor-no-len': 'C08', 'h-cast-swap': 'C08', 'h-index-wrong-ids': 'C05', 'h-axis-num': 'C19', 'h-sum-axis': 'C19', 'u-index-plus1': 'C05', 'u-rename': 'C05'}
 
 
 def prepare_coq(d):
